@@ -102,6 +102,13 @@ fn main() {
         check_eval(&sprogs[i as usize].1, &interp, bound, loc);
         check_layer(&sprogs[i as usize].1, bound, loc);
     }).heavy());
+    // the same shape families at large size parameters (deviation bound 1): layering and predicates
+    let sizes: Vec<usize> = if quick { vec![33, 64, 65, 129] } else { vec![33, 64, 65, 129, 257] };
+    let big = ohmc::props::structured::shapes_at(&sizes, false);
+    ctx.run_slice(Slice::new(format!("structured-shapes-large[sizes {:?}: {} diagrams; deviations <= 1]", sizes, big.len()), big.len() as u64, |i, loc| {
+        check_layer(&big[i as usize].1, 1, loc);
+        check_predicates(&big[i as usize].1, 1, loc);
+    }).heavy());
     let meta = Meta {
         rule: format!("configurations x inputs: every choice tape with at most {} non-default answers of the adversarial backend (argsort tie order, component numbering, sparse_bincount row order, scatter filler; all tapes for the primitive-level slices) crossed with every input of the listed universes, for composition, tensor, functor and optic application, layering, evaluation, structural predicates and morphism tests; compared with the Vec backend's result (isomorphic diagrams, identical booleans / Option-ness / evaluation outputs and interpreter calls, layer validity by the C15 oracle); non-trivial = some tape changes the raw (un-normalised) result", bound),
         bounds: format!("deviation bound {} (at most {} executions per input), inputs: <=2-3 nodes, <=1-2 hyperedges", bound, CAP),
